@@ -20,9 +20,23 @@ if os.path.exists(extra):
     for k in e.get("claimed", {}): not_applicable.pop(k, None)
     not_applicable.update(e.get("not_applicable", {}))
     for k in e.get("not_applicable", {}): claimed.pop(k, None)
+# findings per property, from known_findings.json (ids only; the file has the details)
+import re
+kf = json.load(open(os.path.join(here, "known_findings.json")))["findings"]
+def findings_note(pid):
+    known = sorted(f["id"] for f in kf if f.get("status") == "known" and (f["property"] == pid or pid in f.get("also", [])))
+    fixed = sorted(f["id"] for f in kf if f.get("status") == "fixed" and f["property"] == pid)
+    out = []
+    if known: out.append("known findings reproduced on every run: " + ", ".join(known))
+    if fixed: out.append("fixed in /repo (fix: commits): " + ", ".join(fixed))
+    return "; ".join(out)
 checks = []
 for pid in sorted(claimed):
     text, note = claimed[pid]
+    note = re.sub(r";?\s*findings? [^;]*$", "", note)  # older hand-written finding lists
+    fn = findings_note(pid)
+    if fn:
+        note = note + "; " + fn
     checks.append({
         "property_id": pid,
         "quick_cmd": "./check %s quick" % pid,
